@@ -112,6 +112,26 @@ def rule_b(R, ctx):
         R.ob("C14.b", fn, "accumulate#%d" % k, nd and cnt and walks_left and from_redone and kind,
              "live=%s countable=%s left-walk=%s from follow_redone=%s store-kind=%s" % (nd, cnt, walks_left, from_redone, kind),
              "%s:%s" % (fn.file, s["line"]))
+    # the anchor's own contribution (its offset inside the block) counts only while the anchor is live and countable:
+    # a deleted anchor resolves to the gap where it used to be
+    def reads_start(rv):
+        for k in ("use", "a", "b", "cast"):
+            o = rv.get(k)
+            pl = o.get("c", o.get("m")) if isinstance(o, dict) else None
+            if isinstance(pl, dict) and pl.get("p") and isinstance(pl["p"][-1], str) and pl["p"][-1].endswith("ItemSlice.start"):
+                return True
+        return False
+    own = [(i, j, s) for i, j, s in fn.stmts() if reads_start(s["rv"])]
+    R.floor("C14.b", "anchor-offset contributions in get_offset", len(own), 2)
+    for k, (i, j, s) in enumerate(own):
+        g = v.guards(i)
+        nd = any(lit_call(l, "re:(Item|ItemSlice|ItemFlags)::is_deleted$", False) for l in g)
+        cnt = any(lit_call(l, "re:(Item|ItemSlice|ItemFlags)::is_countable$", True) for l in g)
+        R.ob("C14.b", fn, "anchor-offset#%d" % k, nd and cnt,
+             "the anchor's offset inside its block is added only for a live countable anchor: live=%s countable=%s" % (nd, cnt) if nd and cnt else
+             "the anchor's offset inside its block (%s) is added although the anchor may be %s: a deleted anchor must resolve to the "
+             "gap where it used to be" % (sshow(v.terms.rvalue(s["rv"], 8), 5), "deleted" if not nd else "uncountable"),
+             "%s:%s" % (fn.file, s["line"]))
     fr = fn.calls_to("yrs::store::Store::follow_redone")
     R.floor("C14.b", "follow_redone calls in get_offset", len(fr), 2)
     for cs, site in ordinal_sites(fr):
